@@ -320,15 +320,34 @@ def validate(traces, checks, module="FlowTrace.tla", cfg="FlowTrace.cfg", timeou
         if c is None:
             return tp, n, [], states, gen
         if diag:
-            # rejected: re-run in diagnosis mode to name every failing conjunct (and confirm)
-            env = dict(env0, TRACE=tp, DIAG="1")
-            d = run_tlc(module, cfg, env=env, workers=1, timeout=timeout, xmx=xmx)
-            if d.error not in (None,):
-                raise MachineryError("TLC diagnosis failed on %s (%s):\n%s" % (tp, d.error, d.error_text or d.out[-2500:]))
-            if not d.failed:
+            # rejected: re-run in diagnosis mode to name every failing conjunct (and confirm).  A line
+            # that no action accepts even in diagnosis mode (the implementation did something the
+            # specification has no transition for) is reported as such, its segment is cut out and
+            # the rest of the trace is diagnosed again.
+            fails = []
+            cur = tp
+            for k in range(max_cuts):
+                env = dict(env0, TRACE=cur, DIAG="1")
+                d = run_tlc(module, cfg, env=env, workers=1, timeout=timeout, xmx=xmx)
+                if d.error not in (None, "postcondition"):
+                    raise MachineryError("TLC diagnosis failed on %s (%s):\n%s" % (cur, d.error, d.error_text or d.out[-2500:]))
+                fails += [(cur, cj, ln, _case_of_line(cur, ln)) for cj, ln in d.failed]
+                if d.error is None:
+                    break
+                segs, lines = _segments(cur)
+                line = d.rejected_line or 1
+                seg = [sg for sg in segs if sg[0] <= line < sg[1]] or [segs[-1]]
+                sg = seg[0]
+                fails.append((cur, "NoSpecAction@%d" % (line - sg[0] + 1), line, sg[2]))
+                rest = tp + ".drest%d" % k
+                with open(rest, "w") as f:
+                    f.writelines(lines[:sg[0] - 1] + lines[sg[1] - 1:])
+                cur = rest
+                if sum(1 for _ in open(cur)) == 0:
+                    break
+            if not fails:
                 raise MachineryError("strict run rejected %s at line %s but diagnosis names no conjunct:\n%s"
                                      % (tp, r.rejected_line, d.out[-1500:]))
-            fails = [(tp, cj, ln, _case_of_line(tp, ln)) for cj, ln in d.failed]
             return tp, n, fails, states, gen
         # cut-and-continue
         fails = []
